@@ -233,7 +233,7 @@ class Program:
 
     # ------------------------------------------------------------------ CFG
     # ------------------------------------------------------------------ MIR-level inlining of single-use helpers
-    def inline_single_use_helpers(self, root, skip=None, max_rounds=6, allow_option=False, same_file=False):
+    def inline_single_use_helpers(self, root, skip=None, max_rounds=6, allow_option=False, same_file=False, skip_ret=None):
         """Splice into `root` the bodies of the crate-local, non-public functions that `root` calls and that have
         exactly one call site in the whole program (helpers extracted for readability), so that rules anchored in
         `root` see the same statements whether or not the code was split into helpers.  Functions returning
@@ -267,6 +267,8 @@ class Program:
                 rty = k["locals"][0]["ty"]
                 if not allow_option and (rty.startswith("core::result::Result") or rty.startswith("core::option::Option")):
                     continue
+                if skip_ret and re.search(skip_ret, rty):
+                    continue   # e.g. boolean predicates: better decided as functions (exprs.bool_function) than spliced
                 if len(t["args"]) != k["argc"]:
                     continue
                 if any(self.callee_name(tt) == n for _, tt in self.calls(n)):
